@@ -43,6 +43,12 @@ add("C20", True, "E1-bfs", "model_checking",
     "Trusted: one wait outstanding at a time; monotone puppet bases; the executor model; real-time margins of the synchronous cases (1.5 s vs ~10 ms).",
     "5.20")
 
+add("C02", True, "E1-bfs", "model_checking",
+    "explicit-state BFS (history replay) over all drop/duplicate/reorder choices within a fault budget on a real Writer<->Reader pair; fair fault-free closure as invariant on every reached state",
+    "A real reliable Writer and a real reliable Reader (each behind its own MessageReceiver, ACKNACK/NACKFRAG travelling as bytes) are joined by an in-flight datagram list. All histories up to the depth bound over {Write(plain | 2 fragments | 3 fragments | for another reader only), Deliver(i), DeliverAll, Drop(i), Dup(i), HbTick, Repair/RepairFrags while armed, Clean} within the budgets (drops <= 3, dups <= 1, ticks <= 2) are executed; in every reached state the fair fault-free closure (deliver all, fire armed repair timers, heartbeat tick; <= 16 rounds) is run on the real objects and must reach three consecutive rounds in which the reader holds exactly the writer's history byte-identically with ack base = last+1, no datagram is produced and no repair timer is armed.",
+    "Trusted: timers modelled by their arming state; budgets; the bounded-liveness reading (16 rounds, 3 quiet).",
+    "5.2")
+
 NOT_YET = {}
 
 def main():
